@@ -118,6 +118,46 @@ func genC14(r *fw.Rng, tier string, emit func(fw.Case)) {
 		}
 		emitSess(emit, cs)
 	}
+	// restarted transfers: a transfer of message ID X with N packets is abandoned half-way and the terminal starts X
+	// again with the same total (new serial numbers, new content). Packet 1 begins a new transfer: what is re-requested
+	// and what is delivered belongs to the second transfer only.
+	nRestart := n / 6
+	for i := 0; i < nRestart; i++ {
+		N := 2 + r.Intn(7)
+		old := randTransfer(r, uint16(r.Pick(transferIDs)), 1)
+		old.bodies = nil
+		for k := 0; k < N; k++ {
+			old.bodies = append(old.bodies, r.Bytes(1+r.Intn(5)))
+		}
+		nw := old
+		nw.serial = old.serial + 100 + uint16(r.Intn(1000))
+		nw.bodies = nil
+		for k := 0; k < N; k++ {
+			nw.bodies = append(nw.bodies, r.Bytes(1+r.Intn(5)))
+		}
+		var cs []pchunk
+		cs = append(cs, pchunk{0, old.packet(1, r).bytes})
+		for k := 2; k <= N; k++ {
+			if r.Chance(50) {
+				cs = append(cs, pchunk{0, old.packet(k, r).bytes})
+			}
+		}
+		cs = append(cs, pchunk{r.Pick([]int{0, 1000, 4000, 6000, 20000}), nw.packet(1, r).bytes})
+		var miss []int
+		for k := 2; k <= N; k++ {
+			if r.Chance(50) || (k == N && len(miss) == 0) {
+				miss = append(miss, k)
+			} else {
+				cs = append(cs, pchunk{0, nw.packet(k, r).bytes})
+			}
+		}
+		cs = append(cs, pchunk{6000, heartbeat().bytes})
+		for _, k := range miss {
+			cs = append(cs, pchunk{0, nw.packet(k, r).bytes})
+		}
+		cs = append(cs, pchunk{r.Pick([]int{0, 6000}), heartbeat().bytes})
+		emitSess(emit, cs)
+	}
 	// exhaustive: every non-empty missing subset for N <= 6 (quick) / 10 (thorough), one re-request round each
 	maxE := 6
 	if tier == "thorough" {
